@@ -696,8 +696,8 @@ fn deep_shapes(tier: Tier, report: &mut Report) {
     let depths: &[usize] = tier.pick(&[1_000, 100_000][..], &[1_000, 100_000, 1_000_000][..]);
     for &d in depths {
         for shape in ["left-chain", "right-chain", "xx-chain", "cycle", "undefined-end"] {
-            let t0 = std::time::Instant::now();
             let handle = std::thread::Builder::new().stack_size(256 << 10).spawn(move || {
+                let cpu0 = mc_core::cputime::thread_cpu_secs();
                 // variables: inputs 1,2; gates 3..3+d
                 let mut gates: Vec<(usize, usize, usize)> = Vec::with_capacity(d);
                 for k in 0..d {
@@ -751,17 +751,16 @@ fn deep_shapes(tier: Tier, report: &mut Report) {
                     };
                     results.push((cfg, verdict));
                 }
-                results
+                (results, mc_core::cputime::thread_cpu_secs() - cpu0)
             });
-            let results = match handle.map(|h| h.join()) {
+            let (results, secs) = match handle.map(|h| h.join()) {
                 Ok(Ok(r)) => r,
                 _ => {
                     report.violation("renumber/deep/stack-overflow-or-crash", format!("{shape} of depth {d}: the worker thread died (stack overflow?)"), json!({"property": "C12", "deep": shape, "depth": d}), d as u64);
                     continue;
                 }
             };
-            let secs = t0.elapsed().as_secs_f64();
-            report.max("deep_shape_max_seconds_x1000", (secs * 1000.0) as u64);
+            report.max("deep_shape_max_cpu_seconds_x1000", (secs * 1000.0) as u64);
             for (cfg, v) in results {
                 report.evaluations += 1;
                 report.transitions += 1;
@@ -773,7 +772,7 @@ fn deep_shapes(tier: Tier, report: &mut Report) {
             }
             // linear time: 8 configurations on depth d within a generous budget
             if secs > 10.0 + d as f64 * 1e-5 * 8.0 {
-                report.violation(format!("renumber/deep/{shape}/time"), format!("{shape} of depth {d}: {secs:.1}s for 8 configurations (not linear?)"), json!({"property": "C12", "deep": shape, "depth": d}), d as u64);
+                report.violation(format!("renumber/deep/{shape}/time"), format!("{shape} of depth {d}: {secs:.1}s of CPU time for 8 configurations (not linear?)"), json!({"property": "C12", "deep": shape, "depth": d}), d as u64);
             }
         }
     }
